@@ -23,7 +23,6 @@ import (
 	"strings"
 	"sync"
 	"time"
-	"verif/sim/autoyield"
 
 	"verif/sim/tape"
 )
@@ -229,9 +228,11 @@ func buildAuto() (string, string) {
 	if err != nil {
 		return "", "instrumented build: copying the tree failed: " + err.Error()
 	}
-	files, sites, err := autoyield.Instrument(dst, "github.com/buildbuildio/pebbles")
+	ay := exec.Command(filepath.Join(root, "bin", "autoyield"), dst, "github.com/buildbuildio/pebbles")
+	ay.Env = envGo()
+	ayOut, err := ay.CombinedOutput()
 	if err != nil {
-		return "", "instrumented build: the instrumenter failed: " + err.Error()
+		return "", "instrumented build: the instrumenter failed (" + err.Error() + "): " + firstLines(string(ayOut), 20)
 	}
 	gm, err := os.ReadFile(filepath.Join(root, "sim", "go.mod"))
 	if err != nil {
@@ -259,7 +260,7 @@ func buildAuto() (string, string) {
 	if err := cmd.Run(); err != nil {
 		return "", "instrumented build failed (" + err.Error() + "): " + firstLines(buf.String(), 30)
 	}
-	fmt.Printf("built sim.auto.test from an instrumented copy of %s (%d interleaving points in %d files) in %.1fs\n", src, sites, files, time.Since(start).Seconds())
+	fmt.Printf("built sim.auto.test from an instrumented copy of %s (%s) in %.1fs\n", src, strings.TrimSpace(strings.TrimPrefix(string(ayOut), "autoyield:")), time.Since(start).Seconds())
 	autoBuilt = bin
 	return bin, ""
 }
